@@ -5,6 +5,7 @@ import (
 	"os"
 	"path/filepath"
 	"regexp"
+	"sort"
 	"testing"
 
 	sg "verif/harness/internal/scengen"
@@ -80,25 +81,40 @@ func TestWriteCorpus(t *testing.T) {
 		}
 	}
 	i := 0
-	for name, text := range baseConfigs {
+	names := make([]string, 0, len(baseConfigs))
+	for name := range baseConfigs {
+		names = append(names, name)
+	}
+	sort.Strings(names)
+	for _, name := range names {
+		text := baseConfigs[name]
 		write("FuzzConfig", "base-"+name, []byte(text))
 		for _, ph := range append(append([]string{}, noKeyPlaceholders...), "${env:}", "${env:NO_SUCH_VAR_C13}", "${", "${property:/no/such/file#k}", "-1", "99999999999", "", "[]", "{}", "null") {
 			write("FuzzConfig", fmt.Sprintf("hostile-%03d", i), []byte(replaceFirstScalar(text, i, ph)))
 			i++
 		}
 	}
-	n := 0
-	for _, pool := range [][]string{indexPaths(), stringFuncs, funcExprs, uripostLines, rawHeaders, utilHeaders, nodesetXpaths, scalarXpaths, typeErrorXpaths, brokenXpaths, hostileJsonpaths, hostileHeaderExprs} {
-		for _, s := range pool {
-			write("FuzzParsers", fmt.Sprintf("expr-%03d", n), []byte(s))
-			n++
+	parserPools := map[string][][]string{
+		"mapvalue": {indexPaths()}, "stringfunc": {stringFuncs}, "tmplfunc": {funcExprs}, "preprocessor": {funcExprs, indexPaths()[:12]}, "decodeuri": {uripostLines},
+		"rawheader": {rawHeaders}, "utilheader": {utilHeaders}, "xpath": {nodesetXpaths, scalarXpaths, typeErrorXpaths, brokenXpaths}, "jsonpath": {hostileJsonpaths}, "header": {hostileHeaderExprs},
+	}
+	for target, pools := range parserPools {
+		n := 0
+		for _, pool := range pools {
+			for _, s := range pool {
+				write("FuzzParsers", fmt.Sprintf("%s-%03d", target, n), []byte(s))
+				n++
+			}
 		}
 	}
 	for j, b := range bodies {
 		if len(b) < 4096 {
-			write("FuzzParsers", fmt.Sprintf("with-body-%03d", j), []byte("//div\n"+b))
-			write("FuzzParsers", fmt.Sprintf("with-json-body-%03d", j), []byte("$.a[0]\n"+b))
+			write("FuzzParsers", fmt.Sprintf("xpath-body-%03d", j), []byte("//div\n"+b))
+			write("FuzzParsers", fmt.Sprintf("jsonpath-body-%03d", j), []byte("$.a[0]\n"+b))
 		}
+	}
+	for j, v := range []string{"abc", "", "Bearer 0123456789", "é"} {
+		write("FuzzParsers", fmt.Sprintf("header-value-%03d", j), []byte("X-H|substr(6)\n"+v))
 	}
 }
 
